@@ -7,7 +7,7 @@ from .. import sym as S
 from ..engine import HOLDS, UNDECIDED, VIOLATED, Check
 from ..loader import AnalysisError, parent
 from ..recon import _own_nodes
-from ..rulelib import (appended_in_round, simulate_loop, appends_in, calls_named, carried_with_entry, classify_effect, conds_sym, field_map, func_outcomes,
+from ..rulelib import (eval_conds, appended_in_round, simulate_loop, appends_in, calls_named, carried_with_entry, classify_effect, conds_sym, field_map, func_outcomes,
                        loop_carried, loops_of, reach_table, spec_expr)
 
 LEVEL = "other"
@@ -346,50 +346,98 @@ def partial_runs(chk: Check):
 
 def locations(chk: Check):
     R = chk.R
-    # VHDX
-    ctx = chk.func("disk/vhdx.py", "open_parent")
-    P, L = ("p", ctx.qual, 0), ("p", ctx.qual, 1)
-    rp = S.call(".replace", [("sub", L, S.C("relative_path")), S.C("\\"), S.C("/")])
-    ap = S.call(".replace", [("sub", L, S.C("absolute_win32_path")), S.C("\\"), S.C("/")])
-    c1 = S.call(".joinpath", [P, rp])
-    c2 = S.call(".joinpath", [P, S.op("add", S.C("/"), ap)])
-    cands = []
-    for n in _own_nodes(ctx.func):
-        if isinstance(n, ast.Assign) and isinstance(n.targets[0], ast.Name):
-            t = R.expr(ctx, n.value, ctx.cfg.node_of[n])
-            if t[0] == "call" and t[1] == ".joinpath":
-                cands.append((n, t, conds_sym(chk, ctx, n)))
-    cands.sort(key=lambda c_: c_[0].lineno)
-    ok = len(cands) == 2 and cands[0][1] == c1 and cands[1][1] == c2 and not cands[0][2]
-    if ok:
-        c, p = cands[1][2][-1]
-        ok = c == ("not", S.call(".exists", [c1])) and p is True
-    chk.decide(ok, "K-PATH", "vhdx:parent-candidates", ctx.func,
-               "1) <dir>/<relative_path>, 2) only if that does not exist: the absolute win32 path (back-slashes -> slashes)",
-               found=str([S.show(t)[:120] for _, t, _ in cands]))
-    # VMDK
-    ctx = chk.func("disk/vmdk.py", "open_parent")
-    P, H = ("p", ctx.qual, 0), ("p", ctx.qual, 1)
-    hint = S.call(".replace", [H, S.C("\\"), S.C("/")])
-    parts = S.call(".rpartition", [hint, S.C("/")])
-    fname = ("sub", parts, S.C(2))
-    hdir = ("sub", S.call(".rpartition", [("sub", parts, S.C(0)), S.C("/")]), S.C(2))
-    c1 = S.call(".joinpath", [P, fname])
-    c2 = S.call(".joinpath", [S.call(".joinpath", [("attr", P, "parent"), hdir]), fname])
-    cands = []
-    for n in _own_nodes(ctx.func):
-        if isinstance(n, ast.Assign) and isinstance(n.targets[0], ast.Name):
-            t = R.expr(ctx, n.value, ctx.cfg.node_of[n])
-            if t[0] == "call" and t[1] == ".joinpath":
-                cands.append((n, t, conds_sym(chk, ctx, n)))
-    cands.sort(key=lambda c_: c_[0].lineno)
-    ok = len(cands) == 2 and cands[0][1] == c1 and cands[1][1] == c2 and not cands[0][2]
-    if ok:
-        c, p = cands[1][2][-1]
-        ok = c == ("not", S.call(".exists", [c1])) and p is True
-    chk.decide(ok, "K-PATH", "vmdk:parent-candidates", ctx.func,
-               "1) <dir>/<file name of the hint>, 2) only if that does not exist: <dir>/../<last directory of the hint>/<file name>",
-               found=str([S.show(t)[:140] for _, t, _ in cands]))
+    # VHDX and VMDK: which path is opened, decided by evaluating the opener's argument on model hints (pure path and string
+    # methods are interpreted on pathlib.PurePosixPath values; `.exists()` is forced either way)
+    from pathlib import PurePosixPath as PP
+
+    def vhdx_want(P, hint, exists):
+        c1 = P.joinpath(hint["relative_path"].replace("\\", "/"))
+        if exists(c1):
+            return c1
+        return P.joinpath("/" + hint["absolute_win32_path"].replace("\\", "/"))
+
+    def vmdk_want(P, hint, exists):
+        h = hint.replace("\\", "/")
+        hdir, _, fname = h.rpartition("/")
+        c1 = P.joinpath(fname)
+        if exists(c1):
+            return c1
+        return P.parent.joinpath(hdir.rpartition("/")[2]).joinpath(fname)
+
+    vhdx_hints = [{"relative_path": ".\\base.vhdx", "absolute_win32_path": "C:\\vms\\disks\\base.vhdx"},
+                  {"relative_path": "..\\parents\\p.avhdx", "absolute_win32_path": "D:\\x\\p.avhdx"},
+                  {"relative_path": "sub/dir/base.vhdx", "absolute_win32_path": "\\\\server\\share\\base.vhdx"}]
+    vmdk_hints = ["base.vmdk", "../base/base.vmdk", "C:\\vms\\base disk\\base.vmdk", "/vmfs/volumes/ds1/vm/base.vmdk", "a/b/c/d.vmdk", "..\\other\\d-000001.vmdk"]
+    for fmt, rel, ctor, hints, want_fn, text in (
+            ("vhdx", "disk/vhdx.py", "::VHDX", vhdx_hints, vhdx_want,
+             "1) <dir>/<relative_path>, 2) only if that does not exist: the absolute win32 path (back-slashes -> slashes)"),
+            ("vmdk", "disk/vmdk.py", "::VMDK", vmdk_hints, vmdk_want,
+             "1) <dir>/<file name of the hint>, 2) only if that does not exist: <dir>/../<last directory of the hint>/<file name>")):
+        ctx = chk.func(rel, "open_parent")
+        P, H = ("p", ctx.qual, 0), ("p", ctx.qual, 1)
+        opens = []
+        for n in _own_nodes(ctx.func):
+            if isinstance(n, ast.Call):
+                t = R.expr(ctx, n, ctx.cfg.node_for(n))
+                if t[0] == "call" and t[1].endswith(ctor) and t[2]:
+                    opens.append((n, t[2][0], conds_sym(chk, ctx, n)))
+        rule = ("K-PATH", f"{fmt}:parent-candidates")
+        if not opens:
+            chk.violated(*rule, ctx.func, "the parent image is not opened")
+            continue
+        ex_terms = []
+        for _n, t, conds in opens:
+            for tt in [t] + [c for c, _ in conds]:
+                for x in S.walk(tt):
+                    if isinstance(x, tuple) and x and x[0] == "call" and x[1] in (".exists", ".is_file") and x not in ex_terms:
+                        ex_terms.append(x)
+        bad, und = [], None
+        import itertools as _it
+        ncase = 0
+        for Pv in (PP("/evidence/vm/child"), PP("/a")):
+            for hint in hints:
+                for combo in _it.product((True, False), repeat=len(ex_terms)):
+                    ov = {P: Pv, H: hint}
+                    base_val = S.Valuation(1, override=ov)
+                    try:
+                        answers = {str(S.ev(x[2][0], base_val)): v for x, v in zip(ex_terms, combo)}
+                    except S.EvalError as e:
+                        und = f"cannot evaluate a candidate path: {e}"
+                        break
+                    if len(answers) != len(ex_terms):
+                        continue  # the same path asked twice with different answers: not a situation
+                    ov2 = dict(ov)
+                    ov2.update(dict(zip(ex_terms, combo)))
+                    val = S.Valuation(1, override=ov2)
+                    got = None
+                    try:
+                        for _n, t, conds in opens:
+                            if eval_conds(conds, val):
+                                got = S.ev(t, val)
+                                break
+                    except S.EvalError as e:
+                        und = f"cannot evaluate the opened path: {e}"
+                        break
+                    asked = []
+
+                    def exists(c, _a=answers, _asked=asked):
+                        _asked.append(str(c))
+                        return _a.get(str(c))
+                    want = want_fn(Pv, hint, exists)
+                    if any(a_ not in answers for a_ in asked):
+                        bad.append(f"hint {hint!r}: the specified first candidate {asked[0]} is never tested for existence")
+                        continue
+                    ncase += 1
+                    if not isinstance(got, PP) or str(got) != str(want):
+                        bad.append(f"dir {Pv}, hint {hint!r}, exists {answers}: opens {got}, specified {want}")
+                if und:
+                    break
+            if und:
+                break
+        if und or (bad and any(S.opaque_parts(t) for _n, t, _c in opens)):
+            chk.undecided(*rule, ctx.func, und or f"the opened path contains a part the analyser cannot interpret: {bad[0]}")
+        else:
+            chk.decide(not bad, *rule, ctx.func, text + f" ({ncase} hint x existence situations evaluated)" if not bad else "; ".join(bad[:2]))
     # Parallels
     ctx = chk.func("disk/hdd.py", "HDD._open_image")
     hk = chk.prog.cls("disk/hdd.py", "HDD").key
